@@ -40,6 +40,7 @@ type Profile struct {
 	Queries     bool   // resources 0 and 1 are query resources (normalisation q=K -> q=K mod 2) with query events
 	LongRids    bool   // resource ids around the control-line limit
 	Endgame     bool   // finish by disconnecting every client and firing every eviction timer
+	Legacy      bool   `json:",omitempty"` // some clients negotiate protocol 1.2.0 / 1.1.1 or send no version request
 	Scenario    string `json:",omitempty"` // phase-structured histories (scenario.go) instead of independent random stimuli
 }
 
@@ -590,7 +591,25 @@ func Explore(seed int64, p Profile) (run *gw.Run, stall error) {
 		x.Run.Do(gw.Action{A: "connect"})
 		c := x.Run.W.Clients[i]
 		x.nextID[c.Label]++
-		x.Run.Do(gw.Action{A: "frame", C: c.Label, Text: fmt.Sprintf(`{"id":%d,"method":"version","params":{"protocol":"1.2.1"}}`, x.nextID[c.Label])})
+		proto := "1.2.1"
+		if p.Legacy {
+			// protocol versions before 1.2.1 get soft references as bare strings and data values as a placeholder; 1.1.1
+			// (also the default without a version request) differs further only in call/auth responses, which these
+			// profiles do not use
+			opts := []string{"1.2.1", "1.2.1", "1.2.0", "1.2.0"}
+			if !p.Calls {
+				opts = append(opts, "1.1.1", "")
+			}
+			proto = opts[x.R.Intn(len(opts))]
+		}
+		if proto != "1.2.1" {
+			x.Run.Do(gw.Action{A: "note", Abs: "LEGACY\t" + c.Label})
+		}
+		if proto == "" {
+			x.nextID[c.Label]--
+			continue
+		}
+		x.Run.Do(gw.Action{A: "frame", C: c.Label, Text: fmt.Sprintf(`{"id":%d,"method":"version","params":{"protocol":"%s"}}`, x.nextID[c.Label], proto)})
 	}
 	if p.Scenario != "" {
 		ExploreScenario(seed, p, x)
